@@ -47,7 +47,7 @@ Section Morph.
   Proof. induction l as [|x l IH]; intros [|k]; simpl; auto. Qed.
 
   Lemma nthr_map : forall M k, nthr T' (mmap M) k = map phi (nthr T M k).
-  Proof. induction M as [|r M IH]; intros [|k]; simpl; auto. apply IH. Qed.
+  Proof. induction M as [|r M IH]; intros [|k]; simpl; auto. Qed.
 
   Lemma dot_map : forall u v, dot T' s0 sadd smul (map phi u) (map phi v) = phi (dot T t0 tadd tmul u v).
   Proof.
@@ -99,7 +99,7 @@ Section Morph.
     wf_shape T' n (mmap P) (map phi a) (map phi b) = wf_shape T n P a b.
   Proof.
     intros n P a b. unfold wf_shape, mmap. rewrite !map_length.
-    f_equal. f_equal. f_equal. rewrite forallb_map.
-    apply forallb_ext. intros r. rewrite map_length. reflexivity.
+    f_equal. f_equal. f_equal.
+    induction P as [|r P IH]; simpl; auto. rewrite map_length, IH. reflexivity.
   Qed.
 End Morph.
